@@ -52,6 +52,9 @@ SCENARIOS = {
     'kill-while-paused': {'program': MAIN, 'schedule': [['tick', 1], ['pause', 'pm'], ['tick', 2], ['kill', 'k']]},
     'kill-while-paused-created': {'program': ASYNC, 'schedule': [['pause', 'p0'], ['tick', 1], ['kill', 'k']]},
     'callback-while-paused': {'program': {'steps': [S([['soon', 'ok', 'c1'], ['call', 'pause', 'sp']], ['continue', 1, [], {}]), S([['out', 'x', 1]], ['value', 2])]}, 'schedule': [['tick', 3], ['play']]},
+    # a registered cleanup raises when the process is closed (that is logged, it is not the injected fault)
+    'plain-cleanup-raises': {'program': MAIN, 'schedule': [], 'cleanup_raises': 1},
+    'async-pause-kill-cleanup-raises': {'program': ASYNC, 'schedule': [['tick', 1], ['pause', 'pm'], ['tick', 3], ['play'], ['tick', 1], ['kill', 'k']], 'cleanup_raises': 0},
     # a request made by a listener or a hook during a transition, and a later hook of the same transition fails
     'listener-kill-on-running': {'program': MAIN, 'schedule': [], 'listener': [{'on': 'on_process_running', 'occ': 1, 'do': ['kill', 'lk']}]},
     'listener-kill-on-running2': {'program': MAIN, 'schedule': [], 'listener': [{'on': 'on_process_running', 'occ': 2, 'do': ['kill', 'lk']}]},
@@ -67,7 +70,7 @@ REQUESTER = ('on_pausing', 'on_paused', 'on_playing')
 
 def _dry(scn):
     """Fault-free run of the scenario: hook / notification counts and the reference outcome."""
-    case = {'program': scn['program'], 'schedule': scn.get('schedule', []), 'listener': scn.get('listener', []), 'hooks': scn.get('hooks', [])}
+    case = {'program': scn['program'], 'schedule': scn.get('schedule', []), 'listener': scn.get('listener', []), 'hooks': scn.get('hooks', []), 'cleanup_raises': scn.get('cleanup_raises')}
     with Exec(case) as ex:
         ex.start()
         ex.run_schedule()
@@ -123,6 +126,8 @@ def _cases(draw, tier):
     sched = draw(gen.control_schedules(['pause', 'play', 'kill', 'resume', 'open'], max_events=3, max_gap=3)) if draw(st.booleans()) else []
     scn = {'program': prog, 'schedule': sched}
     if draw(st.integers(0, 3)) == 0:
+        scn['cleanup_raises'] = draw(st.integers(0, 2))
+    if draw(st.integers(0, 3)) == 0:
         scn['listener'] = draw(gen.listener_plans(['kill', 'pause', 'play'], max_plans=1))
     elif draw(st.integers(0, 3)) == 0:
         scn['hooks'] = [h for h in draw(gen.hook_plans(['kill', 'pause', 'play'], max_plans=1)) if h['do'][0] != 'fail']
@@ -155,7 +160,7 @@ def execute(case):
     def v(clause, detail):
         viol.append({'clause': clause, 'detail': f'{_fname(fault)}: {detail}'})
 
-    run_case = {'program': scn['program'], 'schedule': scn.get('schedule', []), 'listener': scn.get('listener', []), 'hooks': scn.get('hooks', [])}
+    run_case = {'program': scn['program'], 'schedule': scn.get('schedule', []), 'listener': scn.get('listener', []), 'hooks': scn.get('hooks', []), 'cleanup_raises': scn.get('cleanup_raises')}
     with Exec(run_case) as ex:
         w = ex.world
         if 'listener' in fault:
